@@ -1,6 +1,6 @@
 (* Properties_C02.v — obligations of property C02 (PS/RT/PTYN characters land in the addressed
    cells via the RDS charset). *)
-Require Import ObsRun Lemmas_TextProps Lemmas_TabConv Lemmas_ObsText Lemmas_Leaf.
+Require Import ObsRun Lemmas_TextProps Lemmas_TabConv Lemmas_ObsText Lemmas_Leaf_C02.
 Local Open Scope Z_scope.
 
 (* the character table measured on the compiled library equals the reference G0 table, maps 0x0D to
